@@ -48,3 +48,10 @@ CLAIMED["C06"] = ("panic-site obligations over the handler-reachable call graph 
   "state UPDATEs are unconditional; and that handlers call the operation only after a clean decode and write exactly one response. Right "
   "level: 'for every request content' is a for-all over inputs that these path facts settle; dependency internals and scheduling are not claimed.",
   TRUST, "DESIGN.md §3 C06")
+CLAIMED["C14"] = ("panic-site obligations over the token functions + provenance-based field-coverage tables",
+  "Decides that no index/slice/nil site in the token decoders, constructors and every Token method can fire for any string or decoded token, "
+  "and that the V3/V4 builders and accessors copy every field of every proof of every group (DLEQ exactly under the includeDLEQ parameter and "
+  "presence), amounts sum everything, mint/unit use one field, prefixes agree between Serialize and the decoders, keys are distinct. Right "
+  "level: totality of the decoder is a for-all over strings settled by length facts; field coverage is a finite table; value equality of the "
+  "CBOR/JSON round trip is library behaviour and is not claimed.",
+  TRUST, "DESIGN.md §3 C14")
